@@ -210,6 +210,11 @@ def nesting_probes(depths):
         out.append((f"unclosed @if nested {d}", ":: Start\n" + "@if True:\n" * d))
         out.append((f"choice condition braces {d}", ":: Start\n+ {" + "{" * d + "} [a] -> Start\n"))
         out.append((f"passage params nested {d}", ":: Start(x=" + "(" * d + ")" * d + ")\nhi\n"))
+        out.append((f"unary chain {d * 40}", ":: Start\n~ x = " + "-" * (d * 40) + "1\n"))
+        out.append((f"not chain {d * 10}", ":: Start\n~ x = " + "not " * (d * 10) + "1\n"))
+        out.append((f"binary chain {d * 20}", ":: Start\n~ x = " + "1+" * (d * 20) + "1\n"))
+        out.append((f"lambda chain {d * 3}", ":: Start\n@if " + "lambda: " * (d * 3) + "1:\n  x\n@endif\n~ y = " + "lambda: " * (d * 3) + "1\n"))
+        out.append((f"expression unary chain {d * 40}", ":: Start\n{" + "-" * (d * 40) + "1}\n+ {" + "not " * (d * 10) + "1} [a] -> Start\n"))
     return out
 
 
@@ -336,6 +341,7 @@ def total_family(rep, n_seq, max_len, n_mut, depths, nproc=16):
 NAME_ALPHA = list("abXY_09.- ") + ["é", "ß", "ж", "Ω", "東", "ａ", "٣", "²", "!", "(", "^", "'"]
 PAREN_ALPHA = list("ab(),= []{}x1^") + ["((", "))", "()", ", ", "=1"]
 PARAM_ALPHA = list("abx_1, =()[]{}'") + ["if", "x=1", "y", ", ", "None", "for", " = ", "a.b", "*a"]
+CONTENT_ALPHA = list("ab {}{}?|^:_- /") + ["//", "\\//", "{x}", " ? ", " | ", "^t", "^a:b", "}", "{"]
 BRACKET_ALPHA = list("[]{}()a, ") + ["[", "]", "]]", "{", "(", "1,", "'"]
 PYL = ["@py:", "@endpy", "  @endpy  ", ">>", "  >>", "<<py", "x = 1", "  y = 2", "    z = 3", "", "  ", "\tq = 1", "@py", "@endpy x", "if a:", "      deep"]
 
@@ -408,6 +414,16 @@ def _real_component(fn, case):
             if fn == "py_old":
                 c, n = blocks._extract_py_old_syntax(list(case["lines"]), case["start"])
                 return "ok", [c, n]
+            if fn == "parse_tags":
+                l, tags = content.parse_tags(case["s"])
+                return "ok", [l, tags]
+            if fn == "parse_content_line":
+                try:
+                    return "ok", content.parse_content_line(case["s"])
+                except SyntaxError as e:
+                    if classify(e, e.__traceback__) != "diag":
+                        raise
+                    return "ok", {"diag": "unclosed" if "Unclosed expression" in str(e) else ("unmatched" if "without matching" in str(e) else "other")}
     except Timeout:
         return "internal", "does not terminate"
     except BaseException as e:  # noqa
@@ -419,7 +435,7 @@ def _real_component(fn, case):
 
 def gen_component_case(r, i):
     fn = ["extract_passage_params", "extract_target_and_args", "split_on_commas", "parse_passage_params", "validate_passage_name",
-          "extract_multiline_expression", "py_new", "py_old"][i % 8]
+          "extract_multiline_expression", "py_new", "py_old", "parse_content_line", "parse_content_line", "parse_tags"][i % 11]
     c = {"kind": "pcomp", "id": i, "fn": fn}
     if fn in ("extract_passage_params", "extract_target_and_args"):
         c["s"] = _rand_str(r, PAREN_ALPHA, 0, 10)
@@ -436,6 +452,23 @@ def gen_component_case(r, i):
             c["s"] = _rand_str(r, PARAM_ALPHA, 0, 8)
     elif fn == "validate_passage_name":
         c["s"] = _rand_str(r, list("abXY_09."), 1, 6) if r.random() < 0.5 else _rand_str(r, NAME_ALPHA, 0, 6)
+    elif fn in ("parse_content_line", "parse_tags"):
+        if r.random() < 0.5:      # mostly well-formed lines
+            parts = []
+            for _ in range(r.randint(1, 4)):
+                k = r.random()
+                if k < 0.35:
+                    parts.append(r.choice(["Hello ", "you see", " ", ", ", "a | b", "it's", "50%", "what? ", "x^2 "]))
+                elif k < 0.6:
+                    parts.append("{" + r.choice(["x", "d['k']", "t:^5", "a ^ b", "f(x, {1: 2})", "", " y "]) + "}")
+                elif k < 0.8:
+                    parts.append("{" + r.choice(["hp > 5", "x", "a ? b"]) + " ? " + r.choice(["Healthy", "HP: {hp}", "{a ? b | c}", "", " ^t "]) +
+                                 r.choice([" | ", "|"]) + r.choice(["Wounded {n}", "", "no \\//t", "x // y"]) + "}")
+                else:
+                    parts.append(r.choice([" ^tag", " ^CLIENT:SPECIAL", "^a-b", " ^a:b-c", "^", "^:x", " // comment", " \\// kept", " //= x"]))
+            c["s"] = "".join(parts)
+        else:
+            c["s"] = _rand_str(r, CONTENT_ALPHA, 0, 12)
     elif fn == "extract_multiline_expression":
         c["lines"] = [_rand_str(r, BRACKET_ALPHA, 0, 6) for _ in range(r.randint(0, 6))]
         c["start"] = r.randint(0, max(0, len(c["lines"])))
